@@ -74,6 +74,9 @@ def one(rec, hub, seed, tier, i):
 
 
 def run(rec, hub, tier, seed, shard, nshards, budget):
+    from ..oracles import bystand
+
+    bystand.register(hub, "C08")
     S.register_c08(hub)
     if shard == 0:
         S.check_quadrature_tables(rec, hub.fd)
@@ -87,6 +90,9 @@ def run(rec, hub, tier, seed, shard, nshards, budget):
 
 
 def replay(rec, hub, case):
+    from ..oracles import bystand
+
+    bystand.register(hub, "C08")
     S.register_c08(hub)
     S.check_quadrature_tables(rec, hub.fd)
     rec.set_case(**case)
